@@ -53,16 +53,19 @@ let parse_res s =
    check): depth-first over "which pending record comes next", candidates in the order of the
    array (hint: return stamps), a hash table of the (placed set, specification state) pairs
    already explored.  Returns the positions of the records in linearization order. *)
-let lin_find (step : 'st -> 'op -> 'st * 'res) (key : 'st -> string) (s0 : 'st)
+let lin_find ?(optional : bool array option) (step : 'st -> 'op -> 'st * 'res) (key : 'st -> string) (s0 : 'st)
     (h : (int * int * 'op * 'res) array) (budget : int) : int list option =
   let n = Array.length h in
+  (* optional records (pending calls, with the result they eventually returned) may be left out *)
+  let opt i = (match optional with Some a -> a.(i) | None -> false) in
+  let nmand = (let c = ref 0 in for i = 0 to n - 1 do if not (opt i) then incr c done; !c) in
   let visited = Hashtbl.create 4096 in
   let placed = Bytes.make n '0' in
   let nodes = ref 0 in
   let result = ref None in
   let rec go st cnt acc =
     if !result <> None || !nodes > budget then ()
-    else if cnt = n then result := Some (List.rev acc)
+    else if cnt = nmand then result := Some (List.rev acc)
     else begin
       incr nodes;
       let minret = ref max_int in
@@ -79,7 +82,7 @@ let lin_find (step : 'st -> 'op -> 'st * 'res) (key : 'st -> string) (s0 : 'st)
               let k = Bytes.to_string placed ^ key st' in
               if not (Hashtbl.mem visited k) then begin
                 Hashtbl.add visited k ();
-                go st' (cnt + 1) (i :: acc)
+                go st' (if opt i then cnt else cnt + 1) (i :: acc)
               end;
               Bytes.set placed i '0'
             end
@@ -89,6 +92,38 @@ let lin_find (step : 'st -> 'op -> 'st * 'res) (key : 'st -> string) (s0 : 'st)
     end in
   go s0 0 [];
   !result
+
+(* the history cut at an instant t: the calls that had returned by t are complete, the calls in
+   flight at t are pending, later calls are not there yet.  The cut must be linearizable as a
+   history with pending calls: an untrusted search chooses which pending calls take effect (with
+   the results they eventually returned), the PROVED pcert check accepts.  Returns
+   (number of pending calls, certificate accepted). *)
+let cut_check (h : ('op, 'res) orec list) key : int * bool =
+  let stamps = List.sort compare (List.concat_map (fun e -> [int_of_n e.o_call; int_of_n e.o_ret]) h) in
+  if stamps = [] then (0, true) else begin
+    let t = List.nth stamps (List.length stamps / 2) in
+    let inf = List.fold_left max 0 stamps + 1 in
+    let h_c = List.filter (fun e -> int_of_n e.o_ret <= t) h in
+    let inflight = List.filter (fun e -> int_of_n e.o_call <= t && int_of_n e.o_ret > t) h in
+    if inflight = [] then (0, true) else begin
+      let nc = List.length h_c in
+      let arr = Array.of_list (List.map (fun e -> (int_of_n e.o_call, int_of_n e.o_ret, e.o_op, e.o_res)) h_c @
+                               List.map (fun e -> (int_of_n e.o_call, inf, e.o_op, e.o_res)) inflight) in
+      let optional = Array.init (Array.length arr) (fun i -> i >= nc) in
+      match lin_find ~optional q_step key [] arr 1500000 with
+      | None -> (List.length inflight, false)
+      | Some l ->
+        (* the chosen pending calls, in the order they appear in the linearization *)
+        let chosen_pos = List.filter (fun i -> i >= nc) l in
+        let inflight_a = Array.of_list inflight in
+        let chosen = List.map (fun i -> (drv_nat_of_n (n_of_int (i - nc)), inflight_a.(i - nc).o_res)) chosen_pos in
+        let rank i = (let rec go k = function [] -> 0 | x :: r -> if x = i then k else go (k + 1) r in go 0 chosen_pos) in
+        let perm = List.map (fun i -> drv_nat_of_n (n_of_int (if i < nc then i else nc + rank i))) l in
+        let pend = List.map (fun e -> { pc_call = e.o_call; pc_op = e.o_op }) inflight in
+        let inf = n_of_int inf in
+        (List.length inflight, pq_pcert h_c pend inf chosen perm)
+    end
+  end
 
 let prog s = if s = "-" then [] else String.split_on_char ',' s
 
@@ -145,6 +180,7 @@ let check inp obs =
                    List.for_all (fun x -> x) (List.mapi (fun t p -> by_tid t = prog p) progs) &&
                    List.length recs = List.length (prog pre) + 1 + List.fold_left (fun a p -> a + List.length (prog p)) 0 progs in
     let bad_res = List.filter (fun (_, _, _, _, res) -> parse_res res = None) recs in
+    let cut = ref (0, true) in
     let verdict, why =
       if bad_res <> [] then (false, "impossible result " ^ (let (_, _, _, op, res) = List.hd bad_res in op ^ "->" ^ res))
       else begin
@@ -161,7 +197,7 @@ let check inp obs =
         let cert = (match lin_find q_step key [] harr 1500000 with
             | Some l -> pq_cert h (List.map (fun i -> drv_nat_of_n (n_of_int i)) l)
             | None -> false) in
-        if cert then (true, "")
+        if cert then (cut := cut_check h key; (true, ""))
         else
         match pq_lin_complete (n_of_int 3000000) h with
         | Some true -> (true, "")
@@ -182,10 +218,13 @@ let check inp obs =
              (match String.split_on_char ':' op2 with ["u"; i2; _] -> i2 = i | _ -> false)) recs
          | _ -> false)) recs in
     let tags = Printf.sprintf "%s,threads-%d,%s%s" (List.hd (split_ws inp)) (List.length progs)
-        (if !overlaps = 0 then "no-overlap" else if !overlaps < 10 then "overlap-1..9" else "overlap-10+")
+        ((if !overlaps = 0 then "no-overlap" else if !overlaps < 10 then "overlap-1..9" else "overlap-10+") ^
+         (match !cut with (0, _) -> ",cut-no-pending" | (k, true) -> if k < 3 then ",cut-pending-1..2" else ",cut-pending-3+"
+                         | (_, false) -> ",cut-unverified"))
         (if polled then ",popwithtimer-polled" else "") in
-    { prop_ok = verdict; model_eq = progs_ok; nontrivial = !overlaps > 0; finding = "-"; tags;
-      detail = (if verdict && progs_ok then "" else why ^ (if progs_ok then "" else " history does not match the programs")) }
+    { prop_ok = verdict; model_eq = progs_ok && snd !cut; nontrivial = !overlaps > 0; finding = "-"; tags;
+      detail = (if verdict && progs_ok && snd !cut then "" else why ^ (if progs_ok then "" else " history does not match the programs") ^
+                (if snd !cut then "" else " the history cut at its median stamp (with its calls in flight as pending calls) found no accepted certificate")) }
   | ["probe"; meth] ->
     let pred_runs = probe_runs (mode_of_method meth) in
     let ran = (obs = "ran") in
